@@ -32,6 +32,22 @@ def impl(case):
     except Exception as e:  # noqa
         out["epsremove"] = {"exc": type(e).__name__, "msg": str(e)[:200]}
     out["total"] = safe(lambda: common.mk_wfsa(case["wfsa"], R, case["cls"]).total_weight())
+    # the ε-free machine returned by `epsremove` is a NEW machine: extend it with ε arcs (as `__mul__` would), then query it —
+    # it must behave like a machine with the same arcs built from scratch, and ITS ε-removal must remove the new ε arcs
+    try:
+        from genlm.grammar.wfsa import EPSILON
+        er2 = common.mk_wfsa(case["wfsa"], R, case["cls"]).epsremove
+        one = common.semiring(R).one
+        qs = [q for q, _ in er2.F] or list(er2.states)
+        if qs:
+            er2.add_arc(qs[0], EPSILON, "__zz__", one)
+            er2.add_F("__zz__", one)
+            snap = common.enc_wfsa(er2, R)
+            fresh = common.mk_wfsa(snap, R, case["cls"])
+            out["edited_epsremove_call"] = [[safe(lambda: er2(x)), safe(lambda: fresh(x))] for x in xs[:8]]
+            out["edited_epsremove_epsfree"] = not any(a == EPSILON for _, a, _, _ in er2.epsremove.arcs())
+    except Exception as e:  # noqa
+        out["edited_epsremove_call"] = {"exc": type(e).__name__, "msg": str(e)[:200]}
     return out
 
 
@@ -140,6 +156,18 @@ def run(ctx):
                         semantic.append(_viol(c, hs, name, x, o, v))
                     else:
                         traces += 1
+            ee = res.get("edited_epsremove_call")
+            if isinstance(ee, dict):
+                semantic.append(_viol(c, hs, "edited_epsremove", None, None, ee))
+            elif ee:
+                for x, (a_, b_) in zip(c["xs"][:8], ee):
+                    evaluations += 1
+                    if isinstance(a_, dict) or isinstance(b_, dict) or not common.close(common.num(a_), common.num(b_), tol, 1e-10):
+                        semantic.append(_viol(c, hs, "edited_epsremove", x, str(b_), {"edited_result": a_, "same_arcs_built_from_scratch": b_}))
+                    else:
+                        traces += 1
+                if res.get("edited_epsremove_epsfree") is False:
+                    semantic.append(_viol(c, hs, "edited_epsremove", None, "no epsilon arcs", {"what": "epsremove of the extended machine still has epsilon arcs"}))
             er = res.get("epsremove")
             if isinstance(er, dict) and "exc" in er:
                 semantic.append(_viol(c, hs, "epsremove", None, None, er))
